@@ -757,9 +757,8 @@ func ruleC13LazyDefaults(p *Prog, ma *macroAnchors, r *Report) {
 						if !ok {
 							return false
 						}
-						lx, ly := lenOperand(bo.X), lenOperand(bo.Y)
-						argsX := lx != nil && isVariadicParamAny(lx)
-						argsY := ly != nil && isVariadicParamAny(ly)
+						argsX := isArgCount(p, bo.X)
+						argsY := isArgCount(p, bo.Y)
 						switch {
 						case argsY && bo.Op == token.LSS && !pol: // !(i < len(args))
 							return true
@@ -784,6 +783,34 @@ func ruleC13LazyDefaults(p *Prog, ma *macroAnchors, r *Report) {
 	if n == 0 {
 		r.Bad("none", "-", "no evaluation of a default expression (an element of tagMacroNode.args) found: omitted parameters are not bound to their defaults")
 	}
+}
+
+// isArgCount: v is len(args) of a variadic/slice parameter of *Value, or an int parameter of an extracted helper
+// that receives exactly that at every call site.
+func isArgCount(p *Prog, v ssa.Value) bool {
+	if l := lenOperand(v); l != nil {
+		return isVariadicParamAny(l)
+	}
+	if u, ok := v.(*ssa.UnOp); ok {
+		if sv := localLoadValue(u); sv != nil {
+			v = sv
+		}
+	}
+	pa, ok := v.(*ssa.Parameter)
+	if !ok || !isIntType(pa.Type()) {
+		return false
+	}
+	acts := paramActuals(p, pa)
+	if len(acts) == 0 {
+		return false
+	}
+	for _, a := range acts {
+		l := lenOperand(a)
+		if l == nil || !isVariadicParamAny(l) {
+			return false
+		}
+	}
+	return true
 }
 
 // isVariadicParamAny: v is (a load of) a variadic/slice parameter of *Value elements of its function.
